@@ -40,6 +40,9 @@ type c16Case struct {
 	// Advertise: what the server says about AUTH in its EHLO reply: "" = "AUTH <mech>" | none = no AUTH keyword | other = AUTH with
 	// other mechanisms only | helo = EHLO refused, HELO only. The server accepts the AUTH command in every case.
 	Advertise string `json:"advertise,omitempty"`
+	// Retry (direct only): when the first exchange has failed, Auth is called again on the same smtp.Client with a new
+	// Auth value; the server fault only hits the first exchange
+	Retry bool `json:"retry_on_same_client,omitempty"`
 }
 
 // closingAuth wraps a mechanism: right before the response of step At is handed to the client, another goroutine
@@ -157,6 +160,7 @@ func runC16Case(r *ev.Run, c c16Case) {
 	if strings.HasPrefix(c.Fault, "client-") {
 		a.Fault = "" // the server is healthy, the client side aborts
 	}
+	a.FaultOnce = c.Retry
 	if c.WrongPass {
 		a.Pass = c.Pass + "x"
 	}
@@ -236,7 +240,12 @@ func runC16Case(r *ev.Run, c c16Case) {
 		case "client-quit":
 			a = &closingAuth{Auth: a, at: c.FaultStep, closer: func() { _ = sc.Quit() }}
 		}
-		if aerr := sc.Auth(a); aerr == nil {
+		aerr := sc.Auth(a)
+		if aerr != nil && c.Retry {
+			r.Count("auth_retries_on_same_client", 1)
+			aerr = sc.Auth(c16Auth(c))
+		}
+		if aerr == nil {
 			if sc.Mail(marker+"@sender.example") == nil {
 				_ = sc.Rcpt(marker + "@rcpt.example")
 			}
@@ -352,7 +361,7 @@ func runC16Case(r *ev.Run, c c16Case) {
 		}
 	}
 	r.Seen("mech_x_fault", c.Mech+"|"+faultName(c)+fmt.Sprint(c.FaultStep))
-	r.Eval(fmt.Sprintf("%s|%s|%d|%s|%t|%t|%t|%s|%s|%s", c.Mech, c.Fault, c.FaultStep, c.Logger, c.OptIn, c.TLS, c.WrongPass, c.Pass, c.Via, c.Advertise), true)
+	r.Eval(fmt.Sprintf("%s|%s|%d|%s|%t|%t|%t|%s|%s|%s|%t", c.Mech, c.Fault, c.FaultStep, c.Logger, c.OptIn, c.TLS, c.WrongPass, c.Pass, c.Via, c.Advertise, c.Retry), true)
 	if c.Advertise != "" && res.Ran {
 		r.Count("auth_exchanges_without_advertisement", 1)
 	}
@@ -370,7 +379,7 @@ func faultName(c c16Case) string {
 
 func runC16(r *ev.Run, rep *ev.ReplayDoc) ev.Summary {
 	sum := ev.Summary{
-		Rule: "all mechanisms (PLAIN, LOGIN, CRAM-MD5, XOAUTH2, SCRAM-SHA-1/-256, -PLUS over TLS) x random high-entropy credentials (also with '%', blanks, non-ASCII, base64 specials) x server scripts {success, wrong password, 535 / 454 / malformed (non-base64) challenge / unexpected extra challenge / disconnect at every step of the exchange, the client closed or quit by another goroutine between two steps} x {capturing custom logger, log.Stdlog, log.JSONlog} x {default, SetLogAuthData(false)} x {mail.Client with a built-in auth type, mail.Client with WithSMTPAuthCustom, smtp.Client.Auth as first command} x server announcing {the mechanism, no AUTH keyword, other mechanisms only, HELO only} (the server accepts the command regardless), debug logging on; if the connection survives a message with marker addresses is sent. A control group with WithLogAuthData shows that the monitor sees secrets when they are logged. distinct by case",
+		Rule: "all mechanisms (PLAIN, LOGIN, CRAM-MD5, XOAUTH2, SCRAM-SHA-1/-256, -PLUS over TLS) x random high-entropy credentials (also with '%', blanks, non-ASCII, base64 specials) x server scripts {success, wrong password, 535 / 454 / malformed (non-base64) challenge / unexpected extra challenge / disconnect at every step of the exchange, the client closed or quit by another goroutine between two steps, Auth called again on the same smtp.Client after a failed exchange} x {capturing custom logger, log.Stdlog, log.JSONlog} x {default, SetLogAuthData(false)} x {mail.Client with a built-in auth type, mail.Client with WithSMTPAuthCustom, smtp.Client.Auth as first command} x server announcing {the mechanism, no AUTH keyword, other mechanisms only, HELO only} (the server accepts the command regardless), debug logging on; if the connection survives a message with marker addresses is sent. A control group with WithLogAuthData shows that the monitor sees secrets when they are logged. distinct by case",
 		Assumptions: []string{
 			"the server never echoes credentials in its reply texts (an echoing server is outside the quantifier)",
 			"forms searched: raw, base64 (std/url/raw), hex, Go-quoted, every client line of the AUTH exchange whose base64 decoding contains the secret, and that decoded text",
@@ -409,6 +418,11 @@ func runC16(r *ev.Run, rep *ev.ReplayDoc) ev.Summary {
 						c.Via = "direct"
 					}
 					cases = append(cases, c)
+					if !c.TLS && !isPlus(mech) && f != "" && f != "drop" {
+						cr := c
+						cr.Via, cr.Retry = "direct", true
+						cases = append(cases, cr)
+					}
 					if !c.TLS && !isPlus(mech) && f == "" {
 						// the exchange is aborted from the client side: another goroutine closes / quits the client between two steps
 						for st2 := 0; st2 < 3; st2++ {
@@ -450,7 +464,10 @@ func runC16(r *ev.Run, rep *ev.ReplayDoc) ev.Summary {
 		if !c.TLS && rng.Intn(4) == 0 {
 			c.Via = "direct"
 		}
-		if !c.TLS && rng.Intn(8) == 0 {
+		if !c.TLS && c.Fault != "" && rng.Intn(3) == 0 {
+			c.Via, c.Retry = "direct", true
+		}
+		if !c.TLS && !c.Retry && rng.Intn(8) == 0 {
 			c.Via, c.Fault, c.FaultStep = "direct", gen.Pick(rng, []string{"client-close", "client-quit"}), rng.Intn(3)
 		}
 		if !c.TLS && c.Fault != "client-close" && c.Fault != "client-quit" && rng.Intn(5) == 0 {
